@@ -319,8 +319,28 @@ pub(crate) mod alloc {
         /// Duplicate polynomials of the ProverKey (e.g. `q_L`, `q_R` and `q_C`)
         /// are only counted once.
         fn serialization_size(&self) -> usize {
-            // Fetch size in bytes of each Polynomial
-            let poly_size = self.arithmetic.q_m.0.len() * BlsScalar::SIZE;
+            // Fetch size in bytes of all (distinct) Polynomials: they need not
+            // have the same number of coefficients.
+            let poly_size: usize = [
+                &self.arithmetic.q_m.0,
+                &self.arithmetic.q_l.0,
+                &self.arithmetic.q_r.0,
+                &self.arithmetic.q_o.0,
+                &self.arithmetic.q_f.0,
+                &self.arithmetic.q_c.0,
+                &self.arithmetic.q_arith.0,
+                &self.logic.q_logic.0,
+                &self.range.q_range.0,
+                &self.fixed_base.q_fixed_group_add.0,
+                &self.variable_base.q_variable_group_add.0,
+                &self.permutation.s_sigma_1.0,
+                &self.permutation.s_sigma_2.0,
+                &self.permutation.s_sigma_3.0,
+                &self.permutation.s_sigma_4.0,
+            ]
+            .iter()
+            .map(|poly| poly.len() * BlsScalar::SIZE)
+            .sum();
             // Fetch size in bytes of each Evaluations
             let eval_size = self.arithmetic.q_m.1.evals.len() * BlsScalar::SIZE
                 + EvaluationDomain::SIZE;
@@ -339,7 +359,7 @@ pub(crate) mod alloc {
             let i64_num = poly_num + 2;
 
             // Calculate the amount of bytes needed to serialize `ProverKey`
-            poly_size * poly_num + eval_size * eval_num + u64::SIZE * i64_num
+            poly_size + eval_size * eval_num + u64::SIZE * i64_num
         }
 
         /// Serializes a [`ProverKey`] struct into a Vec of bytes.
